@@ -512,9 +512,3 @@ Proof.
   destruct (Nat.eqb (curB s) oB) eqn:H2; [|contradiction Hex; reflexivity].
   apply Nat.eqb_eq in H1. apply Nat.eqb_eq in H2. split; congruence.
 Qed.
-
-Lemma batch_cap_pos (c d : N) : (1 <= batch_cap c d)%N.
-Proof.
-  unfold batch_cap. cbv zeta. generalize (c / (if N.eqb d 0 then 4 else d))%N. intros x.
-  destruct (N.eqb x 0) eqn:H; [lia|]. apply N.eqb_neq in H. lia.
-Qed.
